@@ -824,12 +824,15 @@ impl Sim {
                     return ROp::Skip("re-add: no proxy".into());
                 }
                 let r = &pre.store.all_proxies[all[pick(*p, all.len())]];
-                ROp::ReAdd {
-                    addr: r.proxy_address.clone(),
-                    nodes: r.node_addresses.clone(),
-                    host: r.host.clone(),
-                    index: if self.cfg.ordered { Some(r.index) } else { None },
-                }
+                // one re-registration in four reports a different host and different node addresses (the
+                // machine was re-provisioned): whatever the broker makes of it, its records must stay consistent
+                let (nodes, host) = if *p % 4 == 3 {
+                    let alt: Vec<String> = r.node_addresses.iter().map(|n| n.replace(":70", ":71")).collect();
+                    ([alt[0].clone(), alt[1].clone()], format!("{}-reprovisioned", r.host))
+                } else {
+                    (r.node_addresses.clone(), r.host.clone())
+                };
+                ROp::ReAdd { addr: r.proxy_address.clone(), nodes, host, index: if self.cfg.ordered { Some(r.index) } else { None } }
             }
             Op::Balance { c } => ROp::Balance { name: cname(*c) },
             Op::Config { c, k, v } => {
